@@ -319,6 +319,26 @@ fn main() {
         }
     }
 
+    // every (machine, class, byte order) combination, also the ones falcon does not support: whenever an architecture IS
+    // selected it must be of the header's machine, and for the machines that exist in both byte orders (MIPS, PowerPC,
+    // AArch64) its byte order must be the header's (an unsupported combination has to be rejected, not mapped to the
+    // other byte order)
+    for (machine, family) in [(3u16, "x86"), (62, "amd64"), (8, "mips"), (20, "ppc"), (183, "aarch64")] {
+        for class64 in [false, true] { for big in [false, true] {
+            evals += 1;
+            let bytes = minimal_elf(machine, class64, big);
+            if let Ok(Ok(elf)) = catch_unwind(AssertUnwindSafe(|| Elf::new(bytes, 0))) {
+                let ar = elf.architecture();
+                let name_ok = ar.name().starts_with(family);
+                let order_ok = machine == 3 || machine == 62 || (format!("{:?}", ar.endian()) == if big { "Big" } else { "Little" });
+                if !name_ok || !order_ok {
+                    report!("elf_architecture", family, format!("Elf::new(header e_machine={} class64={} big={}).architecture()", machine, class64, big),
+                        format!("{} {:?}", ar.name(), ar.endian()), format!("an error, or a {} architecture of the header's byte order ({})", family, if big { "Big" } else { "Little" }), ["new", "elf_new", "endian", "name"]);
+                }
+            }
+        } }
+    }
+
     let per: Vec<String> = per_op.iter().map(|(k, v)| format!("\"{}\":{}", k, v)).collect();
     println!("{{\"summary\":true,\"evaluations\":{},\"disagreements\":{},\"per_op\":{{{}}}}}", evals, found, per.join(","));
 }
